@@ -153,7 +153,8 @@ class ConnGen:
                     o = self.r.choice(cands)
                     args.append({'k': 'obj', 'type': o.type, 'id': o.id})
                 else:
-                    args.append({'k': 'nil', 'type': ''})
+                    # (the log line says `nil` and nothing else; a closure carries the declared interface: `decl`)
+                    args.append({'k': 'nil', 'type': '', 'decl': a['iface'] or ''})
             else:
                 v = self.value_for(iface, msg, k, a)
                 if v is None:
